@@ -3,7 +3,7 @@ import vlib
 from vlib import Check
 from props.C01 import r_expr, r_value, r_list, cb
 
-STREAMS = ("inset", "inchain", "inscalar", "lookup", "mask", "case1", "logic", "tree", "sel", "like")
+STREAMS = ("witness", "inset", "inchain", "inscalar", "lookup", "mask", "case1", "logic", "tree", "sel", "like")
 
 
 def r_case(c):
@@ -20,6 +20,10 @@ def head(e):
 def classify(c):
     """stable key of a failing input: stream + the shape of the failure (no data values)"""
     why = c.get("why", "")
+    if "OR-chain" in why and c.get("frozen_inlist"):
+        return "in-list:non-constant-element-frozen-into-static-filter"
+    if "OR-chain" in why:
+        return "%s:%s:in-list-vs-or-chain" % (c["stream"], head(c["expr"]))
     if "panicked" in why or "panic" in why:
         kind = "panic"
     elif "no single row raises" in why:
@@ -33,7 +37,7 @@ def classify(c):
 
 def brief(c):
     return {"id": c["id"], "stream": c["stream"], "types": c["types"], "rows": c["rows"][:40], "sel": c["sel"], "expr": c["expr"],
-            "physical_expr": c.get("phys"), "vectorised": c.get("obs"), "error": c.get("err"), "row_by_row": c.get("rowwise"),
+            "physical_expr": c.get("phys"), "or_chain_definition": c.get("or_chain"), "vectorised": c.get("obs"), "error": c.get("err"), "row_by_row": c.get("rowwise"),
             "replay": "build/target/debug/c33 --seed <VERIF_SEED> --n <n> --case %d" % c["id"]}
 
 
@@ -59,7 +63,7 @@ def run(pid, tier, seed, replay):
         if not c.get("planned"):
             unplanned += 1
         if not c["ok"]:
-            ck.fail_input("vectorised evaluation differs from evaluating the same expression row by row: " + c.get("why", "")[:300],
+            ck.fail_input("expression evaluation strategy disagrees with the row-by-row / definitional evaluation: " + c.get("why", "")[:300],
                           brief(c), key=classify(c))
     ck.log("harness: %d cases %s, %d not plannable (%.1fs)" % (len(cases), streams, unplanned, dt))
     if unplanned * 20 > len(cases):
